@@ -70,6 +70,20 @@ def check(prog, rep):
     wt = WT(prog)
     wret = wt.run(pub)
     kcs = [x for x in wt.calls if isinstance(x.callee, Func) and x.callee.jit is not None]
+    if len(kcs) == 2 and kcs[0].callee is kcs[1].callee and kcs[0].bound and set(kcs[0].bound) == set(kcs[1].bound):
+        # the kernel called once per case with a constant flag (`k(data, n, True)` for integer rasters, `k(data, n, False)`
+        # otherwise) is one call whose flag is the case condition
+        from ..wterm import key as _tk, neg as _neg
+        a_, b_ = kcs
+        diff = [p_ for p_ in a_.bound if _tk(a_.bound[p_]) != _tk(b_.bound[p_])]
+        ga = [g_ for g_ in a_.guards if _tk(g_) not in {_tk(x_) for x_ in b_.guards}]
+        gb = [g_ for g_ in b_.guards if _tk(g_) not in {_tk(x_) for x_ in a_.guards}]
+        if len(diff) == 1 and len(ga) == 1 and len(gb) == 1 and _tk(_neg(ga[0])) == _tk(gb[0]) and \
+                {a_.bound[diff[0]], b_.bound[diff[0]]} == {('const', True), ('const', False)}:
+            cond_ = ga[0] if a_.bound[diff[0]] == ('const', True) else gb[0]
+            a_.bound = dict(a_.bound)
+            a_.bound[diff[0]] = cond_
+            kcs = [a_]
     if len(kcs) != 1:
         raise AnalysisIncomplete('regions: labelling kernel call not found (%d jitted callees)' % len(kcs))
     kc = kcs[0]
@@ -755,6 +769,10 @@ def check_dtypes(prog, rep, f, pub, call, entry, c):
         if cl is None:
             rep.add('Q1', f, entry, 'allocation of %s' % name, f.node.lineno, None, 'single allocation not found')
             continue
+        # `dtype=<other>.dtype` of another local array of the kernel: that array's own dtype (the interpreter resolves it)
+        if dt is not None and dt.endswith('.dtype') and name in c.k.arrays and isinstance(c.k.arrays[name].dtype, str) and \
+                not c.k.arrays[name].dtype.endswith('.dtype'):
+            dt = c.k.arrays[name].dtype
         like = short(cl).endswith('_like')
         ok = dt in WIDE_OK if not (like and dt is None) else False
         if dt is not None and ('%s.dtype' % data) in dt:
